@@ -4,7 +4,7 @@ from ..rules import sampling
 META = {
     "title": "Sampled bitstrings follow the state's measurement distribution",
     "technique": "static analysis: keyword pass-through (argument-selection) check along the three sample() "
-                 "chains, path table of the readout model, loop-shape of the error injection",
+                 "chains, path table of the readout model, loop-shape of the error injection; path table of the three samplers with an infeasibility filter on the level count",
     "design_ref": "DESIGN.md §5 C15",
     "explanation": "KWSWAP: p_false_pos / p_false_neg flow unswapped from MPS.sample, StateVector.sample and "
                    "DensityMatrix.sample through apply_measurement_errors into readout_with_error. ROLE-readout: "
